@@ -1,3 +1,24 @@
+//! `vh` — the in-process side of the conformance checks (Engine A in DESIGN.md).
+//! Every subcommand reads scenario lines (spec -> impl) or writes NDJSON traces (impl -> spec).
+//! A panic in code under test is data: it is caught and reported as an outcome, never a tool error.
+
+mod c11;
+mod util;
+
 fn main() {
-    println!("vh");
+    let args: Vec<String> = std::env::args().collect();
+    if args.len() < 2 {
+        eprintln!("usage: vh <subcommand> [args]");
+        std::process::exit(2);
+    }
+    let rest = &args[2..];
+    let res = match args[1].as_str() {
+        "c11-replay" => c11::replay(rest),
+        "c11-record" => c11::record(rest),
+        other => Err(anyhow::anyhow!("unknown subcommand {other}")),
+    };
+    if let Err(e) = res {
+        eprintln!("vh: tool error: {e:#}");
+        std::process::exit(2);
+    }
 }
